@@ -1,1 +1,104 @@
-(* C09 stub: to be written *)
+(* C09 — Operators and simulate() are pure: no hidden state, no input mutation.
+   PARTIAL by design: the theorems below are properties of the PURE MODEL of the API (Model/Purity.v:
+   a function [sem] over an append-only store of immutable values; histories = lists of calls).  Memory
+   aliasing and process state (hash seed) cannot be exhibited in Gallina; that the implementation behaves
+   like this pure function over call histories is checked by the history correspondence of props/c09.py
+   (byte-level snapshots, np.shares_memory, shared-object run vs value-copy run, PYTHONHASHSEED sweep,
+   and exact evaluation of [hist_ok] over QIops).
+   Only statements, each closed by [exact], followed by Print Assumptions. *)
+From Coq Require Import List ZArith Bool.
+From EPG Require Import Scalar QI State Ops Diff Purity PurityProofs.
+Import ListNotations.
+
+(* no out-of-place call changes an existing store entry — for every history *)
+Theorem C09_model_store_monotone (S : ScalOps) (st : store S) (h : history) (k : nat) :
+  forallb out_of_place h = true -> k < length st ->
+  look (fst (run_hist st h)) k = look st k.
+Proof. exact (store_monotone S st h k). Qed.
+Print Assumptions C09_model_store_monotone.
+
+(* operators, probes, sequences and recorded results are never changed by ANY history (in-place calls
+   included): an in-place application replaces only its state-matrix argument *)
+Theorem C09_model_nonsm_immutable (S : ScalOps) (st : store S) (h : history) (k : nat) :
+  k < length st -> is_sm (look st k) = false ->
+  look (fst (run_hist st h)) k = look st k.
+Proof. exact (nonsm_immutable S st h k). Qed.
+Print Assumptions C09_model_nonsm_immutable.
+
+(* the result of a call is a function of the values of its arguments, whatever two histories did before *)
+Theorem C09_model_history_independent (S : ScalOps) (st1 st2 : store S) (h1 h2 : history) (c : call) :
+  (forall r, In r (refs c) -> look (fst (run_hist st1 h1)) r = look (fst (run_hist st2 h2)) r) ->
+  snd (sem (fst (run_hist st1 h1)) c) = snd (sem (fst (run_hist st2 h2)) c).
+Proof. exact (history_independent S st1 st2 h1 h2 c). Qed.
+Print Assumptions C09_model_history_independent.
+
+Theorem C09_model_history_independent_after (S : ScalOps) (st : store S) (h : history) (c : call) :
+  forallb out_of_place h = true -> (forall r, In r (refs c) -> r < length st) ->
+  snd (sem (fst (run_hist st h)) c) = snd (sem st c).
+Proof. exact (history_independent_after S st h c). Qed.
+Print Assumptions C09_model_history_independent_after.
+
+(* a reused instance equals any other instance holding an equal value: single application, and a
+   sequence that uses one instance at several positions *)
+Theorem C09_model_reuse_equals_fresh_apply (S : ScalOps) (st : store S) (r r' s : nat) (inplace : bool) :
+  look st r = look st r' -> result st (CApply r s inplace) = result st (CApply r' s inplace).
+Proof. exact (reuse_equals_fresh_apply S st r r' s inplace). Qed.
+Print Assumptions C09_model_reuse_equals_fresh_apply.
+
+Theorem C09_model_reuse_equals_fresh_seq (S : ScalOps) (st : store S) (l l' : list nat) :
+  map (look st) l = map (look st) l' -> result st (CMkSeq l) = result st (CMkSeq l').
+Proof. exact (reuse_equals_fresh_seq S st l l'). Qed.
+Print Assumptions C09_model_reuse_equals_fresh_seq.
+
+(* simulate twice (with any out-of-place calls in between) = the same result; init, sequence, probe unchanged *)
+Theorem C09_model_simulate_idempotent (S : ScalOps) (st : store S) (h : history) (q : nat) (i : option nat)
+  (n : option nat) (p : option nat) :
+  forallb out_of_place h = true ->
+  (forall r, In r (refs (CSimulate q i n p)) -> r < length st) ->
+  let c := CSimulate q i n p in
+  snd (sem (fst (run_hist (fst (sem st c)) h)) c) = snd (sem st c)
+  /\ forall k, k < length st -> look (fst (run_hist (fst (sem st c)) h)) k = look st k.
+Proof. exact (simulate_idempotent S st h q i n p). Qed.
+Print Assumptions C09_model_simulate_idempotent.
+
+(* a recorded probe value / simulate result is unaffected by ANY later call *)
+Theorem C09_model_probe_snapshot (S : ScalOps) (st : store S) (h : history) (p s : nat) :
+  look (fst (run_hist (fst (sem st (CAcquire p s))) h)) (length st) = result st (CAcquire p s).
+Proof. exact (probe_snapshot S st h p s). Qed.
+Print Assumptions C09_model_probe_snapshot.
+
+Theorem C09_model_simulate_snapshot (S : ScalOps) (st : store S) (h : history) (q : nat) (i n p : option nat) :
+  look (fst (run_hist (fst (sem st (CSimulate q i n p))) h)) (length st) = result st (CSimulate q i n p).
+Proof. exact (simulate_snapshot S st h q i n p). Qed.
+Print Assumptions C09_model_simulate_snapshot.
+
+(* in place = out of place: for every differentiable operator; for every operator on a state matrix
+   without partials; and always for the zeroth-order state *)
+Theorem C09_model_inplace_equals_outofplace_diffop (S : ScalOps) (o : dop S) (vs : value S) :
+  apply_value (VOp (DOp o)) vs true = apply_value (VOp (DOp o)) vs false.
+Proof. exact (inplace_equals_outofplace_diffop S o vs). Qed.
+Print Assumptions C09_model_inplace_equals_outofplace_diffop.
+
+Theorem C09_model_inplace_equals_outofplace_partial (S : ScalOps) (vo : value S) (s : smval S) :
+  d_p1 (sv_d s) = [] -> d_p2 (sv_d s) = [] ->
+  apply_value vo (VSm s) true = apply_value vo (VSm s) false.
+Proof. exact (inplace_equals_outofplace_nopartials S vo s). Qed.
+Print Assumptions C09_model_inplace_equals_outofplace_partial.
+
+Theorem C09_model_inplace_equals_outofplace_main (S : ScalOps) (vo vs : value S) :
+  main_of S (apply_value vo vs true) = main_of S (apply_value vo vs false).
+Proof. exact (inplace_equals_outofplace_main S vo vs). Qed.
+Print Assumptions C09_model_inplace_equals_outofplace_main.
+
+(* ... and FALSE in general for the code that exists (the model is faithful): a non-differentiable operator
+   applied out of place drops the partials of its input, in place it keeps them *)
+Theorem C09_inplace_equals_outofplace_refuted :
+  exists (vo vs : value QIops), apply_value vo vs true <> apply_value vo vs false.
+Proof. exact inplace_equals_outofplace_refuted. Qed.
+Print Assumptions C09_inplace_equals_outofplace_refuted.
+
+(* non-vacuity: a history with a reused operator and a repeated simulate evaluates to the expected values *)
+Example C09_example :
+  @hist_ok QIops ex_store ex_hist [ObNone; ObRes [[qr 1 1 : QIops]]; ObNone; ObRes [[qr 1 1 : QIops]]]
+          [(2%nat, ObSm (init k1) [] [])] = true.
+Proof. exact purity_example. Qed.
